@@ -102,7 +102,7 @@ def run(module, cfg=None, workers=16, timeout=1200, env=None, simulate=None, dep
     Returns a Result; raises TLCError on parse/semantic/evaluation failures that are not property
     violations (those are reported through Result.violated)."""
     meta = tempfile.mkdtemp(prefix="tlcmeta_")
-    cmd = ["java", "-XX:+UseParallelGC", "-Djava.io.tmpdir=" + meta]     # TLC's own scratch directories go with the metadir
+    cmd = ["java", "-XX:+UseParallelGC", "-Xss64m", "-Djava.io.tmpdir=" + meta]     # TLC's own scratch directories go with the metadir
     if heap:
         cmd.append("-Xmx%s" % heap)
     for p in java_props:
